@@ -1148,13 +1148,15 @@ static void build_cases(int tier)
 	add_case(CT_SEED, s, 0, 0, 1, 0);
 	for (int k = 0; k < NKINDS; ++k) {
 	    long n = dev_count(d, k);
-	    long chunk = (k == K_KW || k == K_YSUB) ? 2 :
+	    long chunk = (k == K_KW || k == K_YSUB || k == K_REDECL) ? 2 :
 		(k == K_NUM) ? 4 : 12;
 	    if ((sd->flags & SF_LIGHT) && !(k == K_TRUNC || k == K_LINEDEL ||
 			k == K_LINEDUP || k == K_LINESWAP))
 		continue;
 	    if ((k == K_YSUB) && sd->format != F_VNACAL &&
 		    sd->format != F_YAML)
+		continue;
+	    if ((k == K_REDECL || k == K_HDRMOVE) && sd->format == F_YAML)
 		continue;
 	    for (long lo = 0; lo < n; lo += chunk)
 		add_case(CT_DEV1, s, k, lo, lo + chunk < n ? lo + chunk : n,
